@@ -714,6 +714,9 @@ fn verdict(
 }
 
 pub fn run_op(ctx: &mut Ctx, op: &str) {
+    if ctx.hang_limit_reached() {
+        return;
+    }
     let Some((case, ts, m)) = parse_op(op) else {
         ctx.record(op.to_string(), "bad-op".into(), false);
         return;
